@@ -411,3 +411,58 @@ Proof.
     split; [unfold wfp; rewrite Ek; assumption|]. split; [reflexivity|].
     intros _ y. unfold feed_payload. rewrite Ek. rewrite ev_data_app. reflexivity.
 Qed.
+
+(* ------------------------------------------------------------------ failures raised on complete input *)
+(* the chunked parser stopped on something other than a partial (CRLF-less) line *)
+Definition c_complete (c : cstate) (x : bytes) : bool :=
+  match c with
+  | CDataEnd => true
+  | _ => match find_crlf x with Some _ => true | None => false end
+  end.
+
+Lemma cstop_fail lim mt c tl evs x e e1 y :
+  step_c lim mt (c, tl, evs) x = inr (PRFail e e1) -> c_complete c x = true ->
+  step_c lim mt (c, tl, evs) (x ++ y) = inr (PRFail e e1).
+Proof.
+  intros H Hc. destruct x as [|a r]; [discriminate|].
+  destruct c; cbn [step_c app c_complete] in *.
+  - destruct (find_crlf (a :: r)) as [[line rest]|] eqn:E; [|discriminate].
+    apply (find_crlf_app _ y) in E. cbn [app] in E. rewrite E.
+    repeat (dmH H; try discriminate); inversion H; subst; reflexivity.
+  - repeat (dmH H; try discriminate).
+  - destruct (a =? 13); [|exact H]. destruct r as [|b rest]; [discriminate|]. cbn [app].
+    destruct (b =? 10); [discriminate|exact H].
+  - destruct (find_crlf (a :: r)) as [[line rest]|] eqn:E; [|discriminate].
+    apply (find_crlf_app _ y) in E. cbn [app] in E. rewrite E.
+    repeat (dmH H; try discriminate); inversion H; subst; reflexivity.
+Qed.
+
+Definition pl_complete (lim : limits) (p : pstate) (buf : bytes) (evs : acc) : bool :=
+  match pk p with
+  | PChunked c =>
+    too_long lim p ||
+    let '((ck, _, _), xck) :=
+      stopcfg (step_c lim (max_trailers p)) (2 * length (ctail p ++ buf) + 2)
+              (c, tlines p, evs) (ctail p ++ buf) in
+    c_complete ck xck
+  | _ => true
+  end.
+
+Lemma feed_payload_fail_app lim p x evs e e1 y : wfp p ->
+  feed_payload lim p x evs = PRFail e e1 -> pl_complete lim p x evs = true ->
+  feed_payload lim p (x ++ y) evs = PRFail e e1.
+Proof.
+  intros Hw H Hc. unfold wfp in Hw. unfold pl_complete in Hc. destruct (pk p) as [rem|c|] eqn:Ek.
+  - unfold feed_payload in H. rewrite Ek in H. repeat (dmH H; try discriminate).
+  - rewrite (feed_payload_chunked _ _ _ _ _ Ek) in H. rewrite (feed_payload_chunked _ _ _ _ _ Ek).
+    destruct (too_long lim p) eqn:Et; [exact H|]. cbn [orb] in Hc.
+    pose proof (wfc_cwf _ _ (tlines p) evs Hw) as Hcw.
+    pose proof (meas_c_fuel c (tlines p) evs (ctail p ++ x)) as Hf.
+    destruct (cloop_stop lim (max_trailers p) _ _ _ Hcw Hf) as (sk & xk & E & Hwk & Hm & Hs).
+    rewrite E in Hc. rewrite H in Hs. destruct sk as [[ck tlk] evk].
+    rewrite app_assoc. unfold cloop.
+    rewrite (loop_app _ _ (step_c lim (max_trailers p)) cdflt mu_c cwf (step_c_dec lim _) (step_c_stable lim _)
+               _ _ _ y _ (S (meas mu_c (ck, tlk, evk) (xk ++ y))) Hcw Hf (meas_c_fuel _ _ _ _) _ _ E ltac:(lia)).
+    cbn [loop]. rewrite (cstop_fail _ _ _ _ _ _ _ _ y Hs Hc). reflexivity.
+  - unfold feed_payload in H. rewrite Ek in H. discriminate.
+Qed.
